@@ -20,7 +20,6 @@ import (
 	"net"
 	"strings"
 
-	ber "github.com/go-asn1-ber/asn1-ber"
 	"github.com/honeytrap/honeytrap/event"
 	"github.com/honeytrap/honeytrap/pushers"
 	"github.com/honeytrap/honeytrap/services"
@@ -236,7 +235,7 @@ func (s *ldapService) serve(ctx context.Context, conn net.Conn) error {
 
 	for {
 
-		p, err := ber.ReadPacket(s.ConnReader)
+		p, err := readMessage(s.ConnReader)
 		if err != nil {
 			return err
 		}
